@@ -82,7 +82,7 @@ QuintSource(i) ==
 QuintSet == 1..QuintCount
 
 \* decorations over pairs of representatives
-NDecor == 16
+NDecor == 18
 DecorCount == NR * NR * NDecor
 DecorSource(i) ==
   LET k == i - 1  sh == k % NDecor  ob == RepSeq[((k \div NDecor) % NR) + 1]  oa == RepSeq[(k \div (NDecor * NR)) + 1]
@@ -103,6 +103,8 @@ DecorSource(i) ==
     [] sh = 13 -> <<R("c"), Q, R("t"), Q, R("x"), A, R("y"), C, R("u"), C, R("v"), B, R("w")>>
     [] sh = 14 -> <<R("x"), A, R("y"), B, R("z"), Q, R("u"), C, R("v")>>                       \* a chain of two operators in front of a conditional
     [] sh = 15 -> <<R("x"), A, R("y"), B, R("z"), OP("++"), Q, R("u"), A, R("t"), C, R("v"), B, R("w")>>
+    [] sh = 16 -> <<LP, R("c"), Q, R("x"), A, R("y"), C, R("u"), RP, Q, R("v"), C, R("w"), B, R("z")>>   \* a conditional as the condition of a conditional
+    [] sh = 17 -> <<LP, LP, R("c"), Q, R("x"), C, R("y"), RP, Q, R("t"), C, R("u"), RP, Q, LP, R("v"), A, R("w"), RP, C, R("z")>>
 \* C08: user-registered operators at adjacent and extreme precedences against each other and against built-in representatives
 UserSeq == SetSeq((DOMAIN Table.infix \ DOMAIN BuiltinInfix) \cup {"+", "-", "*", "==", "=", "in", "||"})
 NUS == Len(UserSeq)
